@@ -114,7 +114,7 @@ PROPS = {
                       "C06_iter (entry-by-entry enumeration yields each entry once then the end marker, any mix of V1/V2), C06_stat, C06_dirsize, C06_names.",
     },
     "C09": {
-        "jobs": [{"cmd": "viso", "quick": 150, "thorough": 4000, "timeout": 3000}],
+        "jobs": [{"cmd": "viso", "quick": 70, "thorough": 4000, "timeout": 3000}],
         "rule": "generated images of trees with 0..25 files of boundary sizes (0,1,2047,2048,2049,64KiB+-1, random; a sparse file past 4 GiB in some) x "
                 "sequences of 5..45 Read/Seek/ReadAt operations with offsets at structural boundaries +-2 and lengths 1..1 MiB; the image internals "
                 "(fsBuf, file table, pad area) are taken from the real object through an overlay accessor; non-trivial = the sequence touches >= 2 zones; "
@@ -125,6 +125,21 @@ PROPS = {
         "level_text": "Theorems C09_reader_ok (every read = the slice of one flat byte function, all offsets/lengths/zones/file sizes), C09_history "
                       "(any Read/Seek/ReadAt sequence = plain cursor semantics), C09_progress, over the zone-by-zone model of VirtualISO.read with the "
                       "iterator's own counters; image internals in the differential come from the real object.",
+    },
+    "C10": {
+        "jobs": [{"cmd": "enc", "quick": 250, "thorough": 8000, "timeout": 3000}],
+        "rule": "images of 8..48 sectors (+ partial tail) with random content and disc key, region tables of 2..60 regions (adjacent regions, "
+                "regions from sector 1, to/beyond the last sector) and near-miss tables (count<2, first region not at 0, empty/reversed, overlap) x "
+                "sequences of 5..35 Read/Seek/ReadAt with unaligned offsets and lengths (1,15,16,17,512,2047..70000); half of the runs over an underlying "
+                "file that returns short counts at arbitrary points; header clearing on/off; dec table from the harness' own AES-CBC decryptor "
+                "(cross-checked against the openssl CLI in the thorough tier); non-trivial = more than 2 regions or more than 3 reads",
+        "assumptions": ["Go's crypto/aes and crypto/cipher implement AES-128-CBC (the model takes per-sector decryption as the variable dec)",
+                        "io.ReadFull over io.SectionReader retries short counts"],
+        "partial": [],
+        "level_text": "Theorems C10_reader_ok (every positional read of the decrypting view = the slice of the whole-file reference plaintext, all offsets, "
+                      "lengths and contents, for every length-preserving per-sector cipher i.e. every key), C10_history (any Read/Seek/ReadAt sequence), "
+                      "C10_regions_wf (accepted tables give disjoint increasing encrypted regions, sector 0 plain), over the window/region/sector model of "
+                      "EncryptedISO.ReadAt; key derivation and IV layout are checked by the independent decryptor in the differential.",
     },
     "C13": {
         "jobs": [sess_job(140, 2500, keep_ops=[], held=True, leak=True)],
